@@ -47,6 +47,7 @@ contract("msmart.crc8.calculate",
          params={"data": "bytes"},
          returns="crc8(data)",
          reveal=["crc8_step"],
+         local_roles={"crc_value": "returned"},
          loops={"0": {"match": "data", "define": {"crc_value": "crc8(data[:_i])"}}})
 
 lemma("crc8.step_range",
